@@ -78,7 +78,7 @@ def snapshot(folder: str | None) -> dict[str, str]:
     return snap
 
 
-CFG0 = {"storage": "file_array", "sdict": [], "parallel": False, "executor": False, "cleanup": True, "folder": True}
+CFG0 = {"storage": "file_array", "sdict": [], "parallel": False, "executor": False, "ekeys": [], "cleanup": True, "folder": True}
 NOHOW = {"kind": "", "f": "", "old": "", "new": ""}
 
 
@@ -104,7 +104,7 @@ def run_request(req: dict, run_folder: str | None, kinds: dict | None = None, ho
     start = len(build.LOG)
     stage = "construct"
     exc: BaseException | None = None
-    executor = None
+    executor = pool = None
     mismatch = False
     try:
         with contextlib.redirect_stdout(io.StringIO()), warnings.catch_warnings():
@@ -129,15 +129,18 @@ def run_request(req: dict, run_folder: str | None, kinds: dict | None = None, ho
             if stage == "call":
                 pl(req["out"], **inp)
             else:
+                pool = None
                 if cfg["executor"]:
-                    executor = ThreadPoolExecutor(1)
+                    pool = executor = ThreadPoolExecutor(1)
+                    if cfg.get("ekeys"):     # the dictionary form: output name(s) / "" -> Executor
+                        executor = {("" if not k else k[0] if len(k) == 1 else tuple(k)): pool for k in cfg["ekeys"]}
                 pl.map(inp, run_folder=run_folder, storage=storage_arg(cfg), parallel=cfg["parallel"], cleanup=cfg["cleanup"],
                        executor=executor)
     except Exception as ex:  # noqa: BLE001
         exc = ex
     finally:
-        if executor is not None:
-            executor.shutdown(wait=True)
+        if pool is not None:
+            pool.shutdown(wait=True)
     calls = sum(1 for r in build.LOG[start:] if r["e"] == "call")
     after = snapshot(run_folder)
     changed = sorted(k for k in set(before) | set(after) if before.get(k) != after.get(k))
@@ -214,6 +217,7 @@ def features(req: dict, how: dict | None = None) -> dict:
     feat = {"entry": req.get("entry", "map"), "post_construction": bool(how and how["kind"]),
             "mapped": any(f["has_ms"] and f["ms"]["ins"] for f in fs), "internal_shape": any(f["internal"] for f in fs),
             "cleanup": cfg["cleanup"], "folder": cfg["folder"], "storage_dict": bool(sd),
+            "executor_form": "none" if not cfg["executor"] else "dict" if cfg.get("ekeys") else "bare",
             "storage_known": all(e["name"] in KNOWN for e in sd) if sd else cfg["storage"] in KNOWN}
     if sd:
         unk = next((k for k, e in enumerate(sd) if e["name"] not in KNOWN), None)
@@ -430,6 +434,9 @@ def fixed_jobs() -> list[dict]:
         [["x", _arr("x", 2)]])
     add("tests/test_pipeline_mapspec.py:347 executor without parallel", [_f("f", [], ["y"])], [],
         C(executor=True))
+    add("executor dictionary {'': pool} without parallel", [_f("f", [], ["y"])], [], C(executor=True, ekeys=[[]]))
+    add("executor dictionary {'y': pool, '': pool} without parallel", [_f("f", [], ["y"])], [],
+        C(executor=True, ekeys=[["y"], []]))
     add("tests/map/test_map.py:1233 missing input", [_f("f", ["x", "z"], ["y"])], [["x", _atom("1")]])
     add("tests/map/test_map.py:1236 extra input", [_f("f", ["x"], ["y"])], [["x", _atom("1")], ["not_used", _atom("1")]])
     add("tests/map/test_map.py:1050 unknown storage, no run folder", [_f("f", ["x"], ["y"])], [["x", _atom("1")]],
@@ -515,7 +522,7 @@ def mutate_random(rng: random.Random, tdesc: dict, inputs: list) -> tuple[str, d
     elif op == "unknown_storage":
         cfg = {"storage": "nonsense"}
     elif op == "executor_without_parallel":
-        cfg = {"executor": True}
+        cfg = {"executor": True, "ekeys": rng.choice([[], [[]], [fs[0]["outputs"], []]])}
     elif op in ("resized_axis", "changed_rank"):
         arrs = [k for k, (n, v) in enumerate(inp) if v["f"] == "#arr" and v["a"]]
         if not arrs:
@@ -720,6 +727,7 @@ def replay(rep: dict) -> int:
     req = exp["req"]
     base = req.get("prev")
     req["cfg"].setdefault("sdict", [])
+    req["cfg"].setdefault("ekeys", [])
     job = {"desc": req["desc"], "inputs": req["inputs"], "cfg": req["cfg"], "base": base, "op": exp.get("op", "?"),
            "label": "replay", "entry": req.get("entry", "map"), "out": req.get("out", ""), "how": exp.get("how")}
     tr = run_traced(job)
